@@ -170,13 +170,17 @@ def r3(ctx):
             )
     # _test: status mapping
     f = c.methods["_test"]
+    from ..roles import tuple_vars_from
+
+    st = [t[1] for t in tuple_vars_from(f, lambda e: isinstance(e, ast.Call) and unparse(e.func).endswith("connector.run")) if len(t) == 2 and t[1]]
+    ST = st[0] if st else "status"
     rets = [n for n in f.body_nodes() if isinstance(n, ast.Return)]
     ok_ret = any(
-        isinstance(r.value, ast.UnaryOp) and isinstance(r.value.op, ast.Not) and unparse(r.value.operand) == "status"
+        isinstance(r.value, ast.UnaryOp) and isinstance(r.value.op, ast.Not) and unparse(r.value.operand) == ST
         for r in rets
     )
-    raises = [n for n in f.body_nodes() if isinstance(n, ast.If) and any(isinstance(x, ast.Raise) for x in n.body)]
-    ok_raise = any(unparse(n.test) in ("status > 1", "status >= 2", "1 < status") for n in raises)
+    raises = [n for n in f.body_nodes() if isinstance(n, ast.If) and any(isinstance(x, ast.Raise) for b in n.body for x in ast.walk(b))]
+    ok_raise = any(unparse(n.test) in (f"{ST} > 1", f"{ST} >= 2", f"1 < {ST}") for n in raises)
     ctx.ob("R3", "_test returns `not status`", ok_ret, func=f, node=f.node, instance="_test:ret")
     ctx.ob("R3", "_test raises for status > 1", ok_raise, func=f, node=f.node, instance="_test:raise")
 
@@ -251,12 +255,14 @@ VARIANTS = [
     V("mkdir -p only on parents", FILE, f"{CLS}.mkdir", "if parents or exist_ok:", "if parents:", "R3"),
     V("_test returns status", FILE, f"{CLS}._test", "return not status", "return bool(status)", "R3"),
     V("_test tolerates status 2", FILE, f"{CLS}._test", "status > 1", "status > 2", "R3"),
-    V("symlink operands swapped", FILE, f"{CLS}.symlink_to", "str(target), self.__str__()", "self.__str__(), str(target)", "R3"),
+    V("symlink operands swapped", FILE, f"{CLS}.symlink_to", "shlex.quote(str(target)), shlex.quote(self.__str__())", "shlex.quote(self.__str__()), shlex.quote(str(target))", "R3"),
+    V("chmod: quote removed (S6 revert)", FILE, f"{CLS}.chmod", "shlex.quote(self.__str__())", "self.__str__()", "R1"),
+    V("size: double quotes (S6 revert)", FILE, f"{CLS}.size", "shlex.quote(self.__str__())", "f'\"{self.__str__()}\"'", "R1"),
+    V("glob: whitespace split (revert)", FILE, f"{CLS}.glob", "result.splitlines()", "result.split()", "R2"),
     V("chmod delegation drops follow_symlinks", FILE, f"{CLS}.chmod", "inner_path.chmod(mode, follow_symlinks=follow_symlinks)", "inner_path.chmod(mode)", "R4", control=True),
     V("is_dir delegates to exists", FILE, f"{CLS}.is_dir", "inner_path.is_dir()", "inner_path.exists()", "R4"),
     V("mkdir delegation drops exist_ok", FILE, f"{CLS}.mkdir", "parents=parents, exist_ok=exist_ok)", "parents=parents)", "R4"),
     # benign
     V("exists: quote into a local first", FILE, f"{CLS}.exists", "return await self._test(command=['-e', shlex.quote(self.__str__())])", "q = shlex.quote(str(self))\n        return await self._test(command=['-e', q])", None),
-    V("rename walrus variable", FILE, f"{CLS}.is_file", "inner_path", "inner", None, count=2),
-    V("checksum uses shlex.join-free local rename", FILE, f"{CLS}.checksum", "path", "qpath", None, count=4),
+    V("read_text: keeps the content verbatim (repair of the known finding)", FILE, f"{CLS}.read_text", "return result.strip()", "return result", None),
 ]
